@@ -38,6 +38,7 @@ type Obl struct {
 	File      string
 	Size      int
 	Agree     []string
+	Pre       *Obl // cover queries: the same site before the callee's postconditions were assumed
 }
 
 type Ctx struct {
@@ -272,27 +273,44 @@ func (c *Ctx) seeGlobal(g *ssa.Global) {
 // not assign keep their value (assumption: package-level variables are written only by
 // direct assignments, not through escaped pointers to them).
 func (c *Ctx) restoreGlobals(old, nh *Heap, ms *ModSet) *Heap {
-	if ms != nil && ms.top {
-		return nh
-	}
 	var keys []string
 	for k := range c.globalsSeen {
 		keys = append(keys, k)
 	}
 	sort.Strings(keys)
+	top := ms != nil && ms.top
 	for _, k := range keys {
-		if ms != nil && ms.m[k] {
-			continue
-		}
 		cell := c.globalsSeen[k]
+		// variables covered by the globals-immutable scan (those that global facts speak
+		// about) are never assigned outside their package initialiser: keep them across any call
+		immutable := c.eng.factGlobalKeys()[k]
+		if !immutable {
+			if top || (ms != nil && ms.m[k]) {
+				continue
+			}
+		}
 		l := locOfRef(cell.ref, cell.typ)
 		for _, acc := range l.accs {
-			if ms != nil && !ms.m[acc.mem] {
+			if !top && ms != nil && !ms.m[acc.mem] {
 				continue // array not havocked
 			}
 			nh = c.storeAcc(nh, acc, c.loadAcc(old, acc))
 		}
+		if immutable {
+			// the *big.Int it points to is never mutated in place (same scan)
+			if pt, ok := cell.typ.Underlying().(*types.Pointer); ok {
+				if key, sp := specialNamed(pt.Elem()); sp && key == "math/big.Int" {
+					if top || ms == nil || ms.m[bigMem] {
+						p := c.loadAcc(old, l.accs[0])
+						arrOld := c.heapGet(old, bigMem, "(Array Int Int)")
+						arrNew := c.heapGet(nh, bigMem, "(Array Int Int)")
+						nh = c.heapUpd(nh, bigMem, "(Array Int Int)", sto(arrNew, p, c.sel(arrOld, p)))
+					}
+				}
+			}
+		}
 	}
 	return nh
 }
+
 
